@@ -35,8 +35,13 @@ def sqlite_tables(app: Any) -> dict[str, Any]:
             if n not in existing:
                 out[n] = None
                 continue
-            rows = whitebox.sql(c, f'SELECT * FROM "{n}"')
-            digest = hashlib.sha1(repr(sorted(map(repr, rows))).encode()).hexdigest()[:12]
+            if n.endswith("_message_queue"):
+                # row ids / insertion timestamps are not observable: the queue is its ids in delivery order
+                rows = whitebox.sql(c, f'SELECT invocation_id FROM "{n}" ORDER BY created_at ASC, id ASC')
+                digest = hashlib.sha1(repr(rows).encode()).hexdigest()[:12]
+            else:
+                rows = whitebox.sql(c, f'SELECT * FROM "{n}"')
+                digest = hashlib.sha1(repr(sorted(map(repr, rows))).encode()).hexdigest()[:12]
             out[n] = (len(rows), digest)
     return out
 
@@ -60,9 +65,9 @@ def snapshot(app: Any, ids: list[str] | None = None, with_tables: bool = True, h
         rec = _safe(lambda i=i: (lambda r: (r.status.name, r.runner_id, r.timestamp.isoformat()))(orch.get_invocation_status_record(i)))
         entry: dict[str, Any] = {"record": rec, "retries": _safe(lambda i=i: orch.get_invocation_retries(i))}
         if isinstance(rec, tuple) and rec[0] == "SUCCESS":
-            entry["result"] = _safe(lambda i=i: repr(sb.get_result(i))[:200])
+            entry["result"] = _safe(lambda i=i: (lambda r: (r[:80], len(r), hashlib.sha1(r.encode()).hexdigest()[:12]))(repr(sb.get_result(i))))
         if isinstance(rec, tuple) and rec[0] == "FAILED":
-            entry["exception"] = _safe(lambda i=i: repr(sb.get_exception(i))[:200])
+            entry["exception"] = _safe(lambda i=i: (lambda r: (r[:80], len(r), hashlib.sha1(r.encode()).hexdigest()[:12]))(repr(sb.get_exception(i))))
         if history:
             entry["history"] = _safe(lambda i=i: sorted((h.status_record.status.name, h.runner_context_id, h.status_record.timestamp.isoformat()) for h in sb.get_history(i)))
         entry["stored"] = _safe(lambda i=i: sb._get_invocation(i) is not None)
